@@ -15,6 +15,10 @@ from ..ref import dims
 from ..runner import Part
 
 WORLDS = ("posc", "posc_nocat", "simple")
+# depth-2 histories: the same sweep on posc after conversions of every unit pair (one direction only)
+# requested under the Unknown quantity type (where any label is accepted and nothing is converted)
+WARM_WORLD = "posc+unknown-type requests first"
+
 BASE_V = [0.0, 1.0, -1.0, 0.5, -0.5, 37.5, -37.5, 1e-9, -1e-9, 1e9, -1e9]
 TOL = 1e-12
 
@@ -37,20 +41,36 @@ def _values(infos):
     return sorted(vs)
 
 
+_SNIP_QT = [None]
+
+
 def _snip(world, body):
     return (
         "from mc import worlds\n"
-        "with worlds.world(%r) as db:\n" % world
+        "with worlds.world(%r) as db:\n" % world.split("+")[0]
+        + ("    u = db.GetUnits(%r)\n    for i, a in enumerate(u):\n        for b in u[i + 1:]:\n            db.Convert('Unknown', a, b, 1.0)\n" % _SNIP_QT[0] if "+" in world else "")
         + "".join("    " + line + "\n" for line in body.strip().splitlines())
     )
 
 
 def _task(task):
     world, qt, mode = task
+    _SNIP_QT[0] = qt
     part = Part()
-    with worlds.world(world) as db:
+    with worlds.world(world.split("+")[0]) as db:
         infos = db.GetInfos(qt)
         units = [i.unit for i in infos]
+        if world == WARM_WORLD:
+            import numpy as np
+
+            for i, u in enumerate(units):
+                for v in units[i + 1:]:
+                    for f in (lambda: db.Convert("Unknown", u, v, 1.0), lambda: db.Convert("Unknown", u, v, [1.0]), lambda: db.Convert("Unknown", u, v, np.array([1.0]))):
+                        part.count("prelude_operations")
+                        try:
+                            f()
+                        except Exception:
+                            part.count("prelude_operations_rejected")
         V = _values(infos)
         lin = {i.unit: _lin(i) for i in infos}
         conv = db.Convert
@@ -237,11 +257,13 @@ def run(ctx):
         qts = sorted(db.GetQuantityTypes(), key=lambda q: -len(db.GetInfos(q)))
         tasks.extend((world, qt, mode) for qt in qts)
         tasks.append(("exact", world))
+    db = worlds.get("posc")
+    tasks.extend((WARM_WORLD, qt, "two-mids") for qt in sorted(db.GetQuantityTypes(), key=lambda q: -len(db.GetInfos(q))) if qt != "Unknown")
     run_sharded(ctx, _dispatch, tasks)
     c = ctx.part.counters
     ctx.level = "exploration"
     ctx.rule = (
-        "every ordered unit pair (u,v) of every quantity type of %s x value alphabet (11 fixed values + 3 per affine unit); "
+        "every ordered unit pair (u,v) of every quantity type of %s (+ posc again after Unknown-type requests for every unit pair in one direction) x value alphabet (11 fixed values + 3 per affine unit); "
         "non-trivial = ordered pairs u != v whose conversion changes the value 1.0; distinct outcomes = distinct Convert(u,v,1.0)" % (WORLDS,)
     )
     ctx.coverage_extra = {
